@@ -693,3 +693,46 @@ func c13SelectionHelperForm(c *Ctx, gc *ssa.Function, sni ssa.Instruction, a alp
 	}
 	c.Check("C13.R5", fk+":default-is-first-ready", gc.Pos(), okDef, "the default is recorded only while none is recorded: the first ready provider", "the default provider is not the first ready one")
 }
+
+// c13SdsUpdateSerialised (R8): an SDS-backed TLS context is always built from the latest policy and the latest secret.
+// sdsProvider.update reads the listener's TLS config and the secret, builds a context and stores it - a read-build-write
+// that is only correct if no other update of the same provider runs in between. The three ways in (updateConfig from a
+// listener/cluster update, setCertificate and setValidation from a secret push) are serialised by pemProvider.mutex. If
+// one of them runs outside the mutex, the slower one stores last: a listener just switched to verify_client +
+// require_client_cert keeps serving with the previous client-auth mode until the next push. Clause (lockset): every call of
+// sdsProvider.updateConfig / setCertificate / setValidation is made with pemProvider.mutex held, and update() is called
+// only by those three.
+func c13SdsUpdateSerialised(c *Ctx, pkg string) {
+	wrappers := map[string]bool{"updateConfig": true, "setCertificate": true, "setValidation": true}
+	n := 0
+	ord := ordCounter{}
+	for _, fn := range c.PkgFuncs(pkg) {
+		forEachInstr(fn, false, func(f *ssa.Function, in ssa.Instruction) {
+			ci, ok := in.(ssa.CallInstruction)
+			if !ok {
+				return
+			}
+			cal := ci.Common().StaticCallee()
+			if cal == nil || cal.Signature.Recv() == nil || !strings.HasSuffix(typeName(cal.Signature.Recv().Type()), "mtls.sdsProvider") {
+				return
+			}
+			top := f
+			for top.Parent() != nil {
+				top = top.Parent()
+			}
+			switch {
+			case cal.Name() == "update":
+				n++
+				inWrapper := top.Signature.Recv() != nil && strings.HasSuffix(typeName(top.Signature.Recv().Type()), "mtls.sdsProvider") && wrappers[top.Name()]
+				c.Check("C13.R8", ord.next(f, "update-only-through-wrappers"), in.Pos(), inWrapper, "update() called by "+top.Name(), "sdsProvider.update() is called from "+top.Name()+", outside the three serialised entry points: the rebuild of the TLS context can interleave with a policy or secret change and store a context built from the older of the two")
+			case wrappers[cal.Name()]:
+				n++
+				held := lockHeld(in, "mutex")
+				c.Check("C13.R8", ord.next(f, "under-provider-mutex:"+cal.Name()), in.Pos(), held, "called with pemProvider.mutex held", "sdsProvider."+cal.Name()+" is called in "+top.Name()+" without pemProvider.mutex held: the rebuild of the TLS context races with a concurrent policy update of the same provider and the slower one stores last - a listener switched to verify_client + require_client_cert keeps the previous client-authentication mode until the next push")
+			}
+		})
+	}
+	if n < 5 {
+		c.Unresolved("C13.R8", fmt.Sprintf("calls of sdsProvider.update and its three entry points (found %d)", n))
+	}
+}
